@@ -499,7 +499,31 @@ Section Tie.
   Lemma PDictKey_init_src f d k : construct f CDictKey [d; k] = src_PDictKey_init (reset f) value f d k.
   Proof. reflexivity. Qed.
 
-  (** classes whose __next__ is outside the translated fragment: reset() and __init__ only *)
+  (** PArrayIndex: `if self.exhausted: raise StopIteration`, then inside try / except StopIteration (which sets the flag and
+      re-raises): `list = Pattern.value(self.list)` is a list literal whose selected item is stepped in place, or whatever
+      value Pattern.value gives, subscripted as a value; `index = int(index)` *)
+  Lemma py_int_int v x : py_int v = Yield x -> exists i, x = VInt i.
+  Proof. destruct v; cbn; intro H; try discriminate; injection H as <-; eauto. Qed.
+  Lemma PArrayIndex_next_src f l i e :
+    step (S f) (PArrayIndex l i e) = src_PArrayIndex_next Val.binop value anext f l i e.
+  Proof.
+    open_ src_PArrayIndex_next. unfold py_seq_item, is_stop.
+    destruct e; [reflexivity|].
+    destruct l; tie;
+      try (match goal with H : py_int _ = Yield _ |- _ => destruct (py_int_int _ _ H) as [? ->] end; cbn [int_of] in *; tie; try congruence).
+    all: try (cbn [py_int int_of] in *; congruence).
+  Qed.
+
+  (** PDict: `vdict = Pattern.value(self.dict)` is the dict held by the attribute; dict([(k, Pattern.value(vdict[k])) for k in vdict]) *)
+  Lemma PDict_next_src f d : step (S f) (PDict d) = src_PDict_next Val.binop value anext f d.
+  Proof. open_ src_PDict_next. tie. Qed.
+
+  (** PMap (PRound and the other subclasses inherit this __next__; the stored function is applied by Step.apply_fn) *)
+  Lemma PMap_next_src f input operator args kwargs :
+    step (S f) (PMap input operator args kwargs) = src_PMap_next Val.binop value anext f input operator args kwargs.
+  Proof. open_ src_PMap_next. tie. Qed.
+
+  (** reset() and __init__ of PArrayIndex, reset() of PDict *)
   Lemma PArrayIndex_reset_src f l i e : reset (S f) (PArrayIndex l i e) = src_PArrayIndex_reset (reset f) value f l i e.
   Proof. reflexivity. Qed.
   Lemma PArrayIndex_init_src f l i : construct f CArrayIndex [l; i] = src_PArrayIndex_init (reset f) value f l i.
@@ -561,6 +585,9 @@ Section Tie.
         | PReset pattern trigger => src_PReset_next Val.binop value anext f (areset_strict binop LMAX) pattern trigger
         | PPingPong pattern count values pos dir rpos => src_PPingPong_next Val.binop value anext f pattern count values pos dir rpos
         | PConcatenate inputs pos => src_PConcatenate_next Val.binop value anext f step inputs pos
+        | PArrayIndex l i e => src_PArrayIndex_next Val.binop value anext f l i e
+        | PDict d => src_PDict_next Val.binop value anext f d
+        | PMap input operator args kwargs => src_PMap_next Val.binop value anext f input operator args kwargs
         | _ => step fuel p
         end
     end.
@@ -596,6 +623,9 @@ Section Tie.
       | src_PReset_next => apply PReset_next_src
       | src_PPingPong_next => apply PPingPong_next_src
       | src_PConcatenate_next => apply PConcatenate_next_src
+      | src_PArrayIndex_next => apply PArrayIndex_next_src
+      | src_PDict_next => apply PDict_next_src
+      | src_PMap_next => apply PMap_next_src
       | src_PAdd_next => apply PAdd_next_src
       | src_PSub_next => apply PSub_next_src
       | src_PMul_next => apply PMul_next_src
